@@ -290,6 +290,28 @@ def run(ctx):
     from rules import c06
     c06.member_insert_rule(ctx, cli, "C19.R3")
 
+    # ---------------- R6 `#name` admits every name `inputs.name` admits
+    ctx.rule("C19.R6", "the grammar reads `#name` for every name that `.name` reads: input_reference is `#` followed by the character sequence of identifier (digits and underscores included), without the reserved-word exclusion", floor=1)
+    from lib.peg import Grammar
+    Gr = Grammar(ctx.grammar)
+    try:
+        ident = Gr.seq(Gr.expr("identifier"))
+        iref = Gr.seq(Gr.expr("input_reference"))
+        def expand(e, d=0):
+            if isinstance(e, dict):
+                if e.get("k") == "ident" and e.get("v") in Gr.rules and Gr.ty(e["v"]) == "silent" and d < 4 and e["v"] not in ("reserved_word",):
+                    return expand(Gr.expr(e["v"]), d + 1)
+                return {k_: expand(v_, d) for k_, v_ in e.items()}
+            if isinstance(e, list):
+                return [expand(x, d) for x in e]
+            return e
+        ident_chars = [expand(e) for e in ident if e["k"] != "neg"]
+        iref_x = [expand(e) for e in iref]
+        ok6 = len(iref_x) >= 1 and iref_x[0] == {"k": "str", "v": "#"} and iref_x[1:] == ident_chars
+        ctx.inst("C19.R6", "grammar#input_reference", ok6, "input_reference = %s; identifier characters = %s" % ([e.get("v") or e["k"] for e in iref], [e.get("v") or e["k"] for e in ident_chars]), "blots-core/src/grammar.pest")
+    except Exception as ex:
+        ctx.inst("C19.R6", "grammar#input_reference", None, "could not compare the two rules: %s" % ex, "blots-core/src/grammar.pest")
+
     # ---------------- R4 #name == inputs.name
     ctx.rule("C19.R4", "#name and inputs.name resolve through the same lookup: Environment::get(\"inputs\") then IndexMap::get(field).copied().unwrap_or(Null)", floor=3)
     hev = core.hir_fn("blots_core::expressions::evaluate_ast")
